@@ -1,4 +1,4 @@
-import SciVerif.Lemmas.C01p
+import SciVerif.Lemmas.C01s
 
 /-!
 # C01 — Expression solver evaluates by the documented step table
@@ -206,6 +206,199 @@ theorem C01_reject_missing_left_operand_text (alg : AtomAlg A) (lit : List Char 
     hadj u k (by simpa [lexemes_items, itemLex, OprK.sym] using hu) "operand"
     (by simpa [tokOf, tokB, OprK.name] using C01_reject_missing_left_operand alg lit hn e hwf o ho)
 
+/-! Arity rejection at a GENERAL position of the string: the ill-formed call need not be at the
+    start, it may come after any well-formed prefix.  (`C01_reject_arity` is the case of an empty
+    prefix.)  The tokeniser works through the prefix -- literals, operator symbols, well-formed
+    calls whose arguments the nested solver evaluates -- and raises at the call; nothing that
+    follows the call is looked at. -/
+
+/-- (D, string level, general position) **A call with the wrong number of arguments after a
+    well-formed expression and an operator is rejected**: `e o f(T1,…,Tk) rest` with `e` any
+    well-formed expression, `o` ANY operator symbol of the language (binary, sign, `!`), blanks
+    anywhere between the lexemes of the prefix and before the call, `k ≠ narg` balanced argument
+    texts and an arbitrary remainder `rest` makes `solve` raise "Wrong number of arguments". -/
+theorem C01_reject_arity_after_operator (alg : AtomAlg A) (lit : List Char → A) (hn : NegNeg alg)
+    (e : E) (hwf : e.WF) (hl : LitOK alg lit e) (o : OprK)
+    (u : List Char) (hu : Pre (lexemes e ++ [o.sym]) u)
+    (c : Call) (Ts : List (List Char)) (hne : Ts ≠ [])
+    (hb : ∀ T ∈ Ts, nest T 0 = some 0) (hk : Ts.length ≠ c.narg) (j : Nat) (rest : List Char) :
+    solve dflt alg dfltSteps (u ++ blanks j ++ c.sym ++ joinArgs Ts ++ ')' :: rest)
+      = .error "arity" := by
+  have := solve_arity_after alg lit hn e hwf hl [] [.opr o] (fun _ h => by cases h)
+    (fun it h => by simp only [List.mem_singleton] at h; subst h; rfl)
+    (adj_post_opr alg lit e hl _) u
+    (by simpa [lexemes_items, itemLex] using hu) c Ts hne hb hk j rest
+  simpa [List.append_assoc] using this
+
+/-- (D, string level, general position) the same for a call that follows a well-formed expression
+    directly (`e f(T1,…,Tk) rest`, a missing operator AND a wrong arity: the arity error wins,
+    as in the code, because it is raised while tokenising). -/
+theorem C01_reject_arity_after_expression (alg : AtomAlg A) (lit : List Char → A) (hn : NegNeg alg)
+    (e : E) (hwf : e.WF) (hl : LitOK alg lit e)
+    (u : List Char) (hu : Pre (lexemes e) u)
+    (c : Call) (Ts : List (List Char)) (hne : Ts ≠ [])
+    (hb : ∀ T ∈ Ts, nest T 0 = some 0) (hk : Ts.length ≠ c.narg) (j : Nat) (rest : List Char) :
+    solve dflt alg dfltSteps (u ++ blanks j ++ c.sym ++ joinArgs Ts ++ ')' :: rest)
+      = .error "arity" := by
+  have := solve_arity_after alg lit hn e hwf hl [] [] (fun _ h => by cases h)
+    (fun _ h => by cases h) (by simpa using adj_items alg lit e hl) u
+    (by simpa [lexemes_items] using hu) c Ts hne hb hk j rest
+  simpa [List.append_assoc] using this
+
+/-- (D, string level, general position) the general form: the prefix is a well-formed expression
+    framed by any operator symbols (`pre`, `post`: operator items only; `Adj`: no symbol is
+    directly followed by `*` or `=` that would extend it), e.g. `- e * -` or `! e && !`. -/
+theorem C01_reject_arity_after_prefix (alg : AtomAlg A) (lit : List Char → A) (hn : NegNeg alg)
+    (e : E) (hwf : e.WF) (hl : LitOK alg lit e)
+    (pre post : List LItem) (hpre : OprOnly pre) (hpost : OprOnly post)
+    (hadj : Adj (pre ++ items e ++ post)) (u : List Char)
+    (hu : Pre ((pre ++ items e ++ post).flatMap itemLex) u)
+    (c : Call) (Ts : List (List Char)) (hne : Ts ≠ [])
+    (hb : ∀ T ∈ Ts, nest T 0 = some 0) (hk : Ts.length ≠ c.narg) (j : Nat) (rest : List Char) :
+    solve dflt alg dfltSteps (u ++ blanks j ++ c.sym ++ joinArgs Ts ++ ')' :: rest)
+      = .error "arity" := by
+  have := solve_arity_after alg lit hn e hwf hl pre post hpre hpost hadj u hu c Ts hne hb hk j rest
+  simpa [List.append_assoc] using this
+
+/-! Missing right operand at a GENERAL position: inside the argument of a one-argument call or
+    inside parentheses (`F1` includes the plain parenthesis), the call being at the start of the
+    string or after any well-formed prefix.  The nested solver that evaluates the argument raises,
+    and the error propagates through the argument loop and the tokeniser of the outer `solve`. -/
+
+/-- (D, token level) every operator except `!` -- binary-only or `+`/`-` -- dangling after a
+    well-formed expression is rejected (`C01_reject_missing_operand` and
+    `C01_reject_trailing_sign` in one statement over the operator items of the tokeniser). -/
+theorem C01_reject_trailing_operator (alg : AtomAlg A) (lit : List Char → A) (hn : NegNeg alg)
+    (e : E) (hwf : e.WF) (o : OprK) (ho : o ≠ .not) :
+    solveToks dflt alg dfltSteps (toks dflt alg lit e ++ [tokOf alg lit (.opr o)])
+      = .error "operand" := by
+  cases o with
+  | not => exact absurd rfl ho
+  | sign s => exact C01_reject_trailing_sign alg lit hn e hwf s
+  | bin b =>
+    by_cases hb : b.level = 4
+    · cases b <;> first | (exact absurd hb (by decide)) | skip
+      · exact C01_reject_trailing_sign alg lit hn e hwf false
+      · exact C01_reject_trailing_sign alg lit hn e hwf true
+    · exact C01_reject_missing_operand alg lit hn e hwf b hb
+
+/-- (D, string level, general position) **A dangling operator inside parentheses or inside a
+    one-argument call at the start of the string is rejected**: `f( e' o ) rest` with `f` any of
+    `( exp( log( log10( sqrt( sin( cos( tan(`, `e'` well-formed, `o` any operator but `!`, blanks
+    anywhere, arbitrary `rest`. -/
+theorem C01_reject_missing_operand_in_call (alg : AtomAlg A) (lit : List Char → A)
+    (hn : NegNeg alg) (f : F1) (e' : E) (hwf' : e'.WF) (hl' : LitOK alg lit e') (o : OprK)
+    (ho : o ≠ .not) (v : List Char) (hv : Pre (lexemes e' ++ [o.sym]) v)
+    (j k : Nat) (rest : List Char) :
+    solve dflt alg dfltSteps (blanks j ++ f.sym ++ v ++ blanks k ++ ')' :: rest)
+      = .error "operand" := by
+  have := solve_inner_err alg lit hn [] trivial [] Pre.nil f j rest e' hwf' hl' o v k hv "operand"
+    (C01_reject_trailing_operator alg lit hn e' hwf' o ho) (fun _ h => by cases h)
+  simpa [List.append_assoc] using this
+
+/-- (D, string level, general position) **… and after any well-formed prefix**: `e o1 f( e' o ) rest`
+    (prefix: a well-formed expression framed by operator symbols, as in
+    `C01_reject_arity_after_prefix`; e.g. `1 + 2 * ( 3 - ) …`). -/
+theorem C01_reject_missing_operand_in_call_after_prefix (alg : AtomAlg A) (lit : List Char → A)
+    (hn : NegNeg alg) (e : E) (hwf : e.WF) (hl : LitOK alg lit e)
+    (pre post : List LItem) (hpre : OprOnly pre) (hpost : OprOnly post)
+    (hadj : Adj (pre ++ items e ++ post)) (u : List Char)
+    (hu : Pre ((pre ++ items e ++ post).flatMap itemLex) u)
+    (f : F1) (e' : E) (hwf' : e'.WF) (hl' : LitOK alg lit e') (o : OprK)
+    (ho : o ≠ .not) (v : List Char) (hv : Pre (lexemes e' ++ [o.sym]) v)
+    (j k : Nat) (rest : List Char) :
+    solve dflt alg dfltSteps (u ++ blanks j ++ f.sym ++ v ++ blanks k ++ ')' :: rest)
+      = .error "operand" := by
+  have hlen : (lexemes e).length ≤ u.length := by
+    have h1 := Pre.length_le hu (fun x hx => by
+      simp only [List.flatMap_append, List.mem_append, List.mem_flatMap] at hx
+      rcases hx with (⟨it, hit, hx⟩ | ⟨it, hit, hx⟩) | ⟨it, hit, hx⟩
+      · exact oprLex_ne_nil it (hpre it hit) x hx
+      · have : x ∈ lexemes e := by rw [lexemes_items]; exact List.mem_flatMap.mpr ⟨it, hit, hx⟩
+        exact (lexemes_good alg lit e hl x this).1
+      · exact oprLex_ne_nil it (hpost it hit) x hx)
+    have h2 : (lexemes e).length ≤ ((pre ++ items e ++ post).flatMap itemLex).length := by
+      rw [lexemes_items]; simp; omega
+    omega
+  have hcd := cdepth_le_lexemes e
+  have := solve_inner_err alg lit hn _ hadj u hu f j rest e' hwf' hl' o v k hv "operand"
+    (C01_reject_trailing_operator alg lit hn e' hwf' o ho) (fun it hit => by
+      have hargs := args_of_depth alg lit hn e hwf hl
+        (u ++ (blanks j ++ (f.sym ++ ((v ++ blanks k) ++ ')' :: rest)))).length
+        (by simp only [List.length_append]; omega)
+      simp only [List.mem_append] at hit
+      rcases hit with (hit | hit) | hit
+      · exact itemOK_opr alg lit _ it (hpre it hit)
+      · exact itemOK_items alg lit _ e hl hargs it hit
+      · exact itemOK_opr alg lit _ it (hpost it hit))
+  simpa [List.append_assoc] using this
+
+/-- (D, string level, general position, ANY nesting depth) **A dangling operator inside any number
+    of nested parentheses / one-argument calls is rejected**, after a well-formed prefix:
+    `pre e post  f( g1( g2( … e' o … ) ) ) rest` -- `nestCalls fs t` wraps the text `t` in the calls
+    `fs` (each of `( exp( log( log10( sqrt( sin( cos( tan(`, with arbitrary blanks before the
+    symbol and after its closing parenthesis).  The innermost nested solver raises on `e' o`
+    and the error propagates through every level.  `fs = []` is
+    `C01_reject_missing_operand_in_call_after_prefix`. -/
+theorem C01_reject_missing_operand_nested_after_prefix (alg : AtomAlg A) (lit : List Char → A)
+    (hn : NegNeg alg) (e : E) (hwf : e.WF) (hl : LitOK alg lit e)
+    (pre post : List LItem) (hpre : OprOnly pre) (hpost : OprOnly post)
+    (hadj : Adj (pre ++ items e ++ post)) (u : List Char)
+    (hu : Pre ((pre ++ items e ++ post).flatMap itemLex) u)
+    (f : F1) (fs : List (F1 × Nat × Nat)) (e' : E) (hwf' : e'.WF) (hl' : LitOK alg lit e') (o : OprK)
+    (ho : o ≠ .not) (v : List Char) (hv : Pre (lexemes e' ++ [o.sym]) v)
+    (j k : Nat) (rest : List Char) :
+    solve dflt alg dfltSteps (u ++ blanks j ++ f.sym ++ nestCalls fs (v ++ blanks k) ++ ')' :: rest)
+      = .error "operand" := by
+  have := solve_nested_err alg lit hn _ hadj u hu (cdepth e)
+    (framed_len alg lit e hl pre post hpre hpost u hu)
+    (fun n hd => itemOK_framed alg lit hn e hwf hl pre post hpre hpost n hd)
+    f j rest fs e' hwf' hl' o v k hv "operand" (C01_reject_trailing_operator alg lit hn e' hwf' o ho)
+  simpa [List.append_assoc] using this
+
+/-- (D, string level, ANY nesting depth) the same at the start of the string:
+    `f( g1( … e' o … ) ) rest`, e.g. `((sin( 1 * )))`. -/
+theorem C01_reject_missing_operand_nested (alg : AtomAlg A) (lit : List Char → A)
+    (hn : NegNeg alg) (f : F1) (fs : List (F1 × Nat × Nat)) (e' : E) (hwf' : e'.WF)
+    (hl' : LitOK alg lit e') (o : OprK) (ho : o ≠ .not) (v : List Char)
+    (hv : Pre (lexemes e' ++ [o.sym]) v) (j k : Nat) (rest : List Char) :
+    solve dflt alg dfltSteps (blanks j ++ f.sym ++ nestCalls fs (v ++ blanks k) ++ ')' :: rest)
+      = .error "operand" := by
+  have := solve_nested_err alg lit hn [] trivial [] Pre.nil 0 (Nat.le_refl _)
+    (fun _ _ _ h => by cases h)
+    f j rest fs e' hwf' hl' o v k hv "operand" (C01_reject_trailing_operator alg lit hn e' hwf' o ho)
+  simpa [List.append_assoc] using this
+
+/-- (D, string level, general position, ANY nesting depth) **A call with the wrong number of
+    arguments inside any number of nested parentheses / one-argument calls is rejected**, after a
+    well-formed prefix: `pre e post  f( g1( … c(T1,…,Tk) … ) ) rest` with `k ≠ narg c`. -/
+theorem C01_reject_arity_nested_after_prefix (alg : AtomAlg A) (lit : List Char → A)
+    (hn : NegNeg alg) (e : E) (hwf : e.WF) (hl : LitOK alg lit e)
+    (pre post : List LItem) (hpre : OprOnly pre) (hpost : OprOnly post)
+    (hadj : Adj (pre ++ items e ++ post)) (u : List Char)
+    (hu : Pre ((pre ++ items e ++ post).flatMap itemLex) u)
+    (f : F1) (fs : List (F1 × Nat × Nat)) (c : Call) (Ts : List (List Char)) (hne : Ts ≠ [])
+    (hb : ∀ T ∈ Ts, nest T 0 = some 0) (hk : Ts.length ≠ c.narg) (j a b : Nat) (rest : List Char) :
+    solve dflt alg dfltSteps (u ++ blanks j ++ f.sym
+        ++ nestCalls fs (blanks a ++ c.sym ++ joinArgs Ts ++ ')' :: blanks b) ++ ')' :: rest)
+      = .error "arity" := by
+  have := solve_nested_arity alg lit _ hadj u hu (cdepth e)
+    (framed_len alg lit e hl pre post hpre hpost u hu)
+    (fun n hd => itemOK_framed alg lit hn e hwf hl pre post hpre hpost n hd)
+    f j rest fs c Ts hne hb hk a b
+  simpa [List.append_assoc] using this
+
+/-- (D, string level, ANY nesting depth) the same at the start of the string, e.g. `((sin(1,2)))`. -/
+theorem C01_reject_arity_nested (alg : AtomAlg A) (lit : List Char → A)
+    (f : F1) (fs : List (F1 × Nat × Nat)) (c : Call) (Ts : List (List Char)) (hne : Ts ≠ [])
+    (hb : ∀ T ∈ Ts, nest T 0 = some 0) (hk : Ts.length ≠ c.narg) (j a b : Nat) (rest : List Char) :
+    solve dflt alg dfltSteps (blanks j ++ f.sym
+        ++ nestCalls fs (blanks a ++ c.sym ++ joinArgs Ts ++ ')' :: blanks b) ++ ')' :: rest)
+      = .error "arity" := by
+  have := solve_nested_arity alg lit [] trivial [] Pre.nil 0 (Nat.le_refl _)
+    (fun _ _ _ h => by cases h) f j rest fs c Ts hne hb hk a b
+  simpa [List.append_assoc] using this
+
 /-- The full statement (character level): for every well-formed expression whose literals the
     atom class reads, and every blank oracle, `solve` on the rendered text returns `eval e`. -/
 def C01_solve_eq_eval_statement : Prop :=
@@ -303,6 +496,31 @@ example : ParenFree digAlg := by
 /-- a text of `1 *` (hypothesis of the string-level operand rejections): `1 *` with one blank -/
 example : Pre (lexemes (.num ['1']) ++ [B2.mul.sym]) ['1', ' ', '*'] := by
   simpa [blanks, lexemes, B2.sym] using Pre.cons 0 ['1'] (Pre.cons 1 ['*'] Pre.nil)
+
+/-- a prefix text for the general-position arity rejections: `1 *` in front of `sin(1,2)` -/
+example : Pre (lexemes (.num ['1']) ++ [(OprK.bin .mul).sym]) ['1', ' ', '*'] := by
+  simpa [blanks, lexemes, B2.sym, OprK.sym] using Pre.cons 0 ['1'] (Pre.cons 1 ['*'] Pre.nil)
+
+/-- `1 * sin(1,2)+7` is rejected with "arity" (instance of `C01_reject_arity_after_operator`) -/
+example : solve dflt intAlg dfltSteps
+    (['1', ' ', '*'] ++ blanks 1 ++ (Call.f1 .sin).sym ++ joinArgs [['1'], ['2']] ++ ')' :: ['+', '7'])
+      = .error "arity" :=
+  C01_reject_arity_after_operator intAlg litInt (fun a => Int.neg_neg a) (.num ['1']) trivial
+    ⟨by decide, rfl⟩ (.bin .mul) _
+    (by simpa [blanks, lexemes, B2.sym, OprK.sym] using Pre.cons 0 ['1'] (Pre.cons 1 ['*'] Pre.nil))
+    (.f1 .sin) [['1'], ['2']] (by simp) (by decide) (by decide) 1 ['+', '7']
+
+/-- `( 1 *) +7` is rejected with "operand" (instance of `C01_reject_missing_operand_in_call`) -/
+example : solve dflt intAlg dfltSteps
+    (blanks 0 ++ F1.par.sym ++ ['1', ' ', '*'] ++ blanks 0 ++ ')' :: ['+', '7']) = .error "operand" :=
+  C01_reject_missing_operand_in_call intAlg litInt (fun a => Int.neg_neg a) .par (.num ['1']) trivial
+    ⟨by decide, rfl⟩ (.bin .mul) (by simp) _
+    (by simpa [blanks, lexemes, B2.sym, OprK.sym] using Pre.cons 0 ['1'] (Pre.cons 1 ['*'] Pre.nil))
+    0 0 ['+', '7']
+
+/-- `(sin( (1 *) ))` : two more levels around `(1 *)` (instance of `C01_reject_missing_operand_nested`) -/
+example : nestCalls [(.sin, 0, 0), (.par, 1, 1)] ['1', ' ', '*']
+    = "sin( (1 *) )".toList := by decide
 
 example : ¬ Balanced ['(', '1'] := by unfold Balanced; decide
 example : ¬ Balanced ['1', ')', '('] := by unfold Balanced; decide
